@@ -1,9 +1,10 @@
 (* C07, part 1: where the candidate pipeline (Aligner.align) can raise.
    - every segment the factory builds from scored engine output begins and ends with an aligned pair (SU <= 0 < MS), hence
      startPosition / endPosition / the chain ordering key / the join score never raise on factory output and chain = Ok;
-   - exact characterisation of when AlignmentSegment.slice raises (IndexError in __trimNotAlignedPositionsFromEnd);
-   - sufficient conditions under which one conflict resolution step (resolve_pair) does not raise, and their validity for two
-     fresh factory segments of sorted maps. *)
+   - AlignmentSegment.slice never raises (after repair F8: `while positions and ...` in __trimNotAlignedPositionsFromEnd);
+     exact characterisation of when it raised before the repair (slice_gen false: IndexError on the emptied list), kept for the
+     regression witnesses, and how the two relate;
+   - the shape of the slices of a left member that ends with a pair / a right member that begins with a pair. *)
 From Coq Require Import ZArith QArith List Bool Lia Sorting.Sorted.
 Import ListNotations.
 Require Import Py PyProofs Pairing Core Psum FacProofs FacSegs ChainCore ConflictProofs PairingProofs4.
@@ -105,28 +106,60 @@ Proof. intros Hsu Hms.
   - intros s Hs. apply (aligner_segments_defined P it reference query peaks rev_ s Hsu Hms Hs).
   - eexists. exact Hc. Qed.
 
-(* ------------------------------------------------------------------------------------------------ B. when slice raises *)
+(* ------------------------------------------------------------------------------------------------ B. slice: now total; when it raised *)
 (* a position the trimming loop pops: not a pair and not lessOrEqualOnAnySequence(end) *)
 Definition loose (e : pv) (p : spos) : bool := negb (is_pair p) && negb (le_any p e).
 (* the positions slice keeps before trimming *)
 Definition window (s : segment) (st en : pv) : list spos :=
   takewhile (fun p => negb (is_pair p) || le_any p en) (dropwhile (fun p => less_both p st) (positions s)).
 
-Lemma trim_rev_err rl e : trim_rev rl e = Err <-> forallb (loose e) rl = true.
-Proof. induction rl as [|p t IH]; [split; reflexivity|]. cbn [trim_rev forallb]. fold (loose e p).
+(* AlignmentSegment.slice over Core.trim_rev_gen: fixed = true is the code as it is (= Core.slice), fixed = false the code before
+   repair F8 (positions[-1] on the emptied list raised IndexError) *)
+Definition slice_gen (fixed : bool) (s : segment) (st en : pv) : res segment :=
+  let ps := takewhile (fun p => negb (is_pair p) || le_any p en) (dropwhile (fun p => less_both p st) (positions s)) in
+  match ps with
+  | [] => Ok (seg_create [] (speak s))
+  | _ => do rl <- trim_rev_gen fixed (rev ps) en; Ok (seg_create (rev rl) (speak s))
+  end.
+Lemma trim_rev_gen_true rl e : trim_rev_gen true rl e = trim_rev rl e.
+Proof. induction rl as [|p t IH]; [reflexivity|]. cbn [trim_rev_gen trim_rev]. rewrite IH. reflexivity. Qed.
+Theorem slice_gen_true s st en : slice_gen true s st en = slice s st en.
+Proof. unfold slice_gen, slice. destruct (takewhile _ _) as [|x t]; [reflexivity|]. rewrite trim_rev_gen_true. reflexivity. Qed.
+
+(* the code as it is: the trimming loop stops on the empty list, slice never raises *)
+Lemma trim_rev_total rl e : exists r, trim_rev rl e = Ok r.
+Proof. induction rl as [|p t IH]; [eexists; reflexivity|]. cbn [trim_rev]. destruct (_ && _); [exact IH | eexists; reflexivity]. Qed.
+Theorem slice_total s st en : exists r, slice s st en = Ok r.
+Proof. unfold slice. destruct (takewhile _ _) as [|x t]; [eexists; reflexivity|].
+  destruct (trim_rev_total (rev (x :: t)) en) as (r & ->). eexists; reflexivity. Qed.
+
+(* before repair F8 *)
+Lemma trim_rev_old_err rl e : trim_rev_gen false rl e = Err <-> forallb (loose e) rl = true.
+Proof. induction rl as [|p t IH]; [split; reflexivity|]. cbn [trim_rev_gen forallb]. fold (loose e p).
   destruct (loose e p); cbn [andb]; [exact IH | split; discriminate]. Qed.
 
-(* slice raises exactly when the kept window is non-empty and consists only of poppable positions *)
-Theorem slice_err_iff s st en : slice s st en = Err <-> window s st en <> [] /\ forallb (loose en) (window s st en) = true.
-Proof. unfold slice. fold (window s st en). destruct (window s st en) as [|x t] eqn:E.
+(* it raised exactly when the kept window is non-empty and consists only of poppable positions *)
+Theorem slice_old_err_iff s st en : slice_gen false s st en = Err <-> window s st en <> [] /\ forallb (loose en) (window s st en) = true.
+Proof. unfold slice_gen. fold (window s st en). destruct (window s st en) as [|x t] eqn:E.
   - split; [discriminate | intros [H _]; contradiction].
-  - destruct (trim_rev (rev (x :: t)) en) as [rl|] eqn:Et; cbn [bind].
-    + split; [discriminate|]. intros [_ H]. rewrite <- forallb_rev in H. apply trim_rev_err in H. congruence.
-    + split; [|reflexivity]. intros _. split; [discriminate|]. rewrite <- forallb_rev. apply trim_rev_err. exact Et. Qed.
+  - destruct (trim_rev_gen false (rev (x :: t)) en) as [rl|] eqn:Et; cbn [bind].
+    + split; [discriminate|]. intros [_ H]. rewrite <- forallb_rev in H. apply trim_rev_old_err in H. congruence.
+    + split; [|reflexivity]. intros _. split; [discriminate|]. rewrite <- forallb_rev. apply trim_rev_old_err. exact Et. Qed.
+
+(* the repair changes nothing where the old code did not raise; where it raised, the code now returns the empty segment *)
+Lemma trim_rev_old_agree rl e r : trim_rev_gen false rl e = Ok r -> trim_rev rl e = Ok r.
+Proof. induction rl as [|p t IH]; [discriminate|]. cbn [trim_rev_gen trim_rev]. destruct (_ && _); [exact IH | exact (fun H => H)]. Qed.
+Lemma trim_rev_old_err_now rl e : trim_rev_gen false rl e = Err -> trim_rev rl e = Ok [].
+Proof. induction rl as [|p t IH]; [reflexivity|]. cbn [trim_rev_gen trim_rev]. destruct (_ && _); [exact IH | discriminate]. Qed.
+Theorem slice_old_agree s st en r : slice_gen false s st en = Ok r -> slice s st en = Ok r.
+Proof. unfold slice, slice_gen. destruct (takewhile _ _) as [|x t]; [exact (fun H => H)|].
+  destruct (trim_rev_gen false (rev (x :: t)) en) as [rl|] eqn:E; [|discriminate]. rewrite (trim_rev_old_agree _ _ _ E). exact (fun H => H). Qed.
+Theorem slice_old_err_now s st en : slice_gen false s st en = Err -> slice s st en = Ok (seg_create [] (speak s)).
+Proof. unfold slice, slice_gen. destruct (takewhile _ _) as [|x t]; [discriminate|].
+  destruct (trim_rev_gen false (rev (x :: t)) en) as [rl|] eqn:E; [discriminate|]. rewrite (trim_rev_old_err_now _ _ E). reflexivity. Qed.
 
 Corollary slice_ok_if_kept s st en p : In p (window s st en) -> loose en p = false -> exists r, slice s st en = Ok r.
-Proof. intros Hin Hl. destruct (slice s st en) as [r|] eqn:E; [eexists; reflexivity|]. apply slice_err_iff in E. destruct E as (_ & E).
-  rewrite forallb_forall in E. rewrite (E p Hin) in Hl. discriminate. Qed.
+Proof. intros _ _. apply slice_total. Qed.
 
 (* left member: it ends with a pair and every pair is lessOrEqualOnAnySequence(its own last pair) *)
 Definition pairs_le_end (a : segment) : Prop :=
